@@ -30,10 +30,15 @@ def plan(tier, seed):
 
 def gen_case(rng, pairs):
     c = printer.gen_closure(rng, pairs)
+    if rng.random() < 0.2:
+        c['low_heap'] = True        # a program that is not position independent: its heap, and every proxy in it, lies below 4 GiB
     # emphasis: arguments after an array
     if rng.random() < 0.35:
         pos = rng.randint(0, min(19, len(c['args'])))
         c['args'].insert(pos, printer.gen_arg(rng, 'a'))
+        if rng.random() < 0.04:
+            # a closure too big for the wire still exists (and is handed to serialize_closure) before libwayland refuses to send it
+            c['args'][pos] = {'k': 'a', 'data': [printer.gen_int(rng, True) for _ in range(rng.choice([1025, 1500, 4096, 16385]))]}
         if pos == len(c['args']) - 1 and len(c['args']) < 20:
             c['args'].append(printer.gen_arg(rng, rng.choice('iufsonh')))
         c['args'] = c['args'][:20]
@@ -103,6 +108,9 @@ def run_case(ctx, c, world, sim, extract, wl, parse):
     g = world.gdb
     case = {'closure': c}
     ctx.ev()
+    world.low_heap = bool(c.get('low_heap'))
+    if world.low_heap:
+        ctx.count('closures_in_a_heap_below_4GiB')
     conn = world.connection()
     proxies = c['dir'] == 'recv' and c['side'] == 'client'
     clo = world.closure(c, new_id_as_object=proxies)
@@ -248,6 +256,8 @@ def run_tierb(ctx, spec):
             for a in c['args']:
                 if a['k'] == 's' and a['v'] is not None and len(a['v'].encode('utf-8')) > 30000:
                     a['v'] = a['v'][:8000]             # the inferior's script reader takes tokens of at most 64 kB
+                if a['k'] == 'a' and len(a['data']) > 2000:
+                    del a['data'][2000:]               # ... and so must an array's
             c['iface'] = 'vq_' + c['iface']      # the whole plugin runs in tier B: keep the random closures free of protocol semantics (bind, delete_id)
             # strings must survive a C string and gdb's target charset: no NUL, valid UTF-8 (the generator's strings are)
             seq = script.event(conns[c['side']], 1, c['dir'] == 'send', 0 if c['func'] in ('wl_closure_invoke', 'wl_closure_send') else 1,
